@@ -261,6 +261,8 @@ type SliceV struct {
 	Tag  int
 	Base *Term // explicit vectors obtained by exploding an array remember it: unchanged elements are Select(Base,i)
 	BaseLens *Term
+	ViewTag  int   // for sub-slice views (Tag == -1): tag of the parent backing array and the offset into it
+	ViewOff  *Term
 }
 
 type StructV struct {
